@@ -1,8 +1,105 @@
 import Gonuts.Model.Sexp
-/-! Driver commands `select.*` (stateless): filled in by the Select model. Core-only imports. -/
-namespace Gonuts.Model.SelectDriver
-open Gonuts
+import Gonuts.Model.Select
+/-!
+  Driver commands `select.*` (stateless).  Core-only imports.
 
-def handle (_cmd : String) (_args : List Sexp) : Option Sexp := none
+  Encodings: proof `(amount ks uid)`; mint `(activeId activePpk ((id ppk) …))`; sorter `stable` or
+  `(oracle uid …)` (the order in which the implementation picked the proofs); view = what is printed of a
+  selection: `uid` (uids in selection order), `ak` (`(amount ks)` pairs in selection order), `a` (amounts in
+  selection order), `set` (uids sorted), `akset` (`(amount ks)` pairs sorted by keyset, amount), `aset`
+  (amounts sorted), `kind` (only ok / which error).
+-/
+namespace Gonuts.Model.SelectDriver
+open Gonuts Gonuts.Model Gonuts.Model.Select
+
+def u64? (s : Sexp) : Option UInt64 := do
+  let n ← s.asNat?
+  if n < 2 ^ 64 then some (UInt64.ofNat n) else none
+
+def u64s? (s : Sexp) : Option (List UInt64) := do
+  (← s.asList?).mapM u64?
+
+def ofU64 (x : UInt64) : Sexp := Sexp.ofNat x.toNat
+def ofU64s (xs : List UInt64) : Sexp := Sexp.list (xs.map ofU64)
+
+def proof? : Sexp → Option P
+  | .list [a, k, u] => do some { amount := ← u64? a, ks := ← k.asNat?, uid := ← u.asNat? }
+  | _ => none
+
+def proofs? (s : Sexp) : Option (List P) := do (← s.asList?).mapM proof?
+
+def mint? : Sexp → Option Mint
+  | .list [a, p, .list ina] => do
+    let ina ← ina.mapM (fun e => match e with
+      | .list [i, q] => do some ((← i.asNat?), (← u64? q))
+      | _ => none)
+    some { activeId := ← a.asNat?, activePpk := ← u64? p, inactive := ina }
+  | _ => none
+
+def sorter? : Sexp → Option Sorter
+  | .atom "stable" => some stableSorter
+  | .list (.atom "oracle" :: uids) => do some (oracleSorter (← uids.mapM Sexp.asNat?))
+  | _ => none
+
+def viewProofs (view : String) (ps : List P) : Option Sexp :=
+  match view with
+  | "uid" => some (Sexp.ofNats (ps.map (·.uid)))
+  | "ak" => some (Sexp.list (ps.map (fun p => Sexp.list [ofU64 p.amount, Sexp.ofNat p.ks])))
+  | "a" => some (ofU64s (amounts ps))
+  | "set" => some (Sexp.ofNats (sortBy (fun a b => decide (a ≤ b)) (ps.map (·.uid))))
+  | "akset" =>
+    let sorted := sortBy (fun (a b : P) => decide (a.ks < b.ks) || (a.ks == b.ks && a.amount ≤ b.amount)) ps
+    some (Sexp.list (sorted.map (fun p => Sexp.list [ofU64 p.amount, Sexp.ofNat p.ks])))
+  | "aset" => some (ofU64s (sortU64 (amounts ps)))
+  | "kind" => some (Sexp.list [])
+  | _ => none
+
+def viewResult (view : String) : SelResult → Option Sexp
+  | .ok ps => do some (Sexp.list [Sexp.atom "ok", ← viewProofs view ps])
+  | .errBalance => some (Sexp.list [Sexp.atom "err-balance"])
+  | .errFunds a f t =>
+    if view == "kind" then some (Sexp.list [Sexp.atom "err-funds"])
+    else some (Sexp.list [Sexp.atom "err-funds", ofU64 a, ofU64 f, ofU64 t])
+
+def viewOutcome (view : String) : SendOutcome → Option Sexp
+  | .offline ps => do some (Sexp.list [Sexp.atom "offline", ← viewProofs view ps])
+  | .swap pl => do
+    some (Sexp.list [Sexp.atom "swap", ofU64 pl.amount', ofU64 pl.feesToReceive, ← viewProofs view pl.inputs,
+      ofU64s pl.send, ofU64 pl.proofsAmount, ofU64 pl.fees, ofU64 pl.changeAmount, ofU64s pl.change])
+  | .err e => viewResult view e
+
+def handle (cmd : String) (args : List Sexp) : Option Sexp :=
+  match cmd, args with
+  | "select.send", [srt, view, mint, proofs, amount, inc] => do
+    viewResult (← view.asStr?)
+      (selectProofsToSend (← sorter? srt) (← mint? mint) (← proofs? proofs) (← u64? amount) (← inc.asBool?))
+  | "select.spfa", [srt, view, mint, inactive, active, amount, inc] => do
+    viewResult (← view.asStr?)
+      (selectProofsForAmount (← sorter? srt) (← mint? mint) (← proofs? inactive) (← proofs? active)
+        (← u64? amount) (← inc.asBool?))
+  | "select.gpfa", [srt, view, mint, inactive, active, amount, inc] => do
+    viewOutcome (← view.asStr?)
+      (getProofsForAmount (← sorter? srt) (← mint? mint) (← proofs? inactive) (← proofs? active)
+        (← u64? amount) (← inc.asBool?))
+  | "select.swap-to-send", [srt, view, mint, inactive, active, amount, inc] => do
+    viewOutcome (← view.asStr?)
+      (swapToSend (← sorter? srt) (← mint? mint) (← proofs? inactive) (← proofs? active)
+        (← u64? amount) (← inc.asBool?))
+  | "select.fees-proofs", [mint, proofs] => do
+    some (ofU64 (feesForProofs (← mint? mint) (← proofs? proofs)))
+  | "select.fees-count", [count, ppk] => do
+    some (ofU64 (feesForCount (← count.asNat?) (← u64? ppk)))
+  | "select.send-split", [ppk, amount, inc] => do
+    let ppk ← u64? ppk
+    let amount ← u64? amount
+    let inc ← inc.asBool?
+    let f := feesToReceive ppk amount inc
+    some (Sexp.list [ofU64 f, ofU64 (amount + f), ofU64s (sendSplit ppk amount inc)])
+  | "select.split-target", [wallet, amount] => do
+    some (ofU64s (splitWalletTarget (← u64s? wallet) (← u64? amount)))
+  | "select.blank", [x] => do
+    let x ← u64? x
+    some (Sexp.list [Sexp.ofNat (calculateBlankOutputs x), Sexp.ofBool (blankOutputsCertain x)])
+  | _, _ => none
 
 end Gonuts.Model.SelectDriver
